@@ -54,6 +54,7 @@ func genC12(rng *rand.Rand, tier string) *core.Plan {
 	p.Cfg["fieldmodes"] = rng.Intn(2)
 	p.Cfg["route"] = rng.Intn(2) // the rows find their shard and family through lindb's broker-side routing
 	p.Cfg["multi"] = rng.Intn(2) // statements may select two columns
+	p.Cfg["failleaf"] = rng.Intn(2)
 	return p
 }
 
@@ -223,6 +224,22 @@ func queryC12(c *core.RunCtx, ra, rk *run, op core.Op) {
 			}
 			return
 		}
+	}
+	// a leaf that fails with a real error: whatever the arrival order, the statement fails (a partial answer
+	// without an error is a wrong answer)
+	if c.Plan.C("failleaf", 0) == 1 {
+		rsF, errF := rk.n.Query(rk.db, sqlText, Layout{Leaves: part, Delay: delay, FailLeaf: true})
+		c.Oracle()
+		if errF == nil {
+			n := 0
+			if rsF != nil {
+				n = len(rsF.Series)
+			}
+			c.Violate("C12/leaf-error-lost", "%s [%d shards on leaves %v plus a leaf that fails]: answered %d series and no error although one leaf reported \"injected: storage of this leaf failed\"", sqlText, k, part, n)
+			return
+		}
+		c.Sim.Fault("failing-leaf")
+		c.Sim.Probe("failing-leaf-reported")
 	}
 	// metamorphic relation: all layouts give the same answer. Fields whose aggregate depends on the order
 	// in which series are merged (last/first) are only compared when a group is one series.
